@@ -110,5 +110,8 @@ class Check(PropertyCheck):
     def search(self, boost=1):
         return self.oracle(self.texts(self.scale(1200, 20000) * boost))
 
+    def oracle_on_texts(self, texts):
+        return self.oracle(texts)
+
     def replay_case(self, case):
         return self.oracle([case["input"]])
